@@ -268,15 +268,21 @@ def check_hosvd(case):
 # cross approximation
 # ------------------------------------------------------------------------------------------------
 
+_LOGGED = []
+
+
 def logged_generator(A):
-    L = _L()
+    """a TensorGenerator that records every index expression the algorithm asks for"""
+    if not _LOGGED:
+        L = _L()
 
-    class LoggedGen(L.TensorGenerator):
-        def __getitem__(self, I):
-            self.log.append(I)
-            return super().__getitem__(I)
+        class LoggedGen(L.TensorGenerator):
+            def __getitem__(self, I):
+                self.log.append(I)
+                return super().__getitem__(I)
 
-    g = LoggedGen(A.shape, lambda I: A[tuple(I)])
+        _LOGGED.append(LoggedGen)
+    g = _LOGGED[0](A.shape, lambda I: A[tuple(I)])
     g.log = []
     return g
 
@@ -843,7 +849,7 @@ def cases(tier, seed):
     # the zero tensor is a tensor: the greedy algorithms must stop at once with error 0
     for shape in ((3,), (2, 2), (2, 2, 2)):
         for algo in ("grou", "gta"):
-            add("greedy", algo=algo, shape=list(shape), fam="zero", r=0, R=2, tol=1e-10, guard=5.0)
+            add("greedy", algo=algo, shape=list(shape), fam="zero", r=0, R=2, tol=1e-10, guard=3.0)
     # constant constructors, ndarray helpers
     for d in (1, 2, 3):
         for shape in itertools.product((1, 2, 3), repeat=d):
